@@ -1,6 +1,38 @@
--- shard 18 of the closeness / tick-gap sweep (C06 (c), (e)): |tick| in [589824, 622592)
+-- shard 18 of the closeness / tick-gap sweep (C06 (c), (e)): |tick| in [589824, 622592), 16 blocks of 2^11
 import Proofs.Lemmas.ClosePred
 namespace Demeter.TickClose
 set_option maxRecDepth 100000 in
-theorem close_shard_18 : chkN closeSweepPred 589824 shardBits = true := by decide +kernel
+theorem close_blk_589824 : chkN closeSweepPred 589824 11 = true := by decide +kernel
+set_option maxRecDepth 100000 in
+theorem close_blk_591872 : chkN closeSweepPred 591872 11 = true := by decide +kernel
+set_option maxRecDepth 100000 in
+theorem close_blk_593920 : chkN closeSweepPred 593920 11 = true := by decide +kernel
+set_option maxRecDepth 100000 in
+theorem close_blk_595968 : chkN closeSweepPred 595968 11 = true := by decide +kernel
+set_option maxRecDepth 100000 in
+theorem close_blk_598016 : chkN closeSweepPred 598016 11 = true := by decide +kernel
+set_option maxRecDepth 100000 in
+theorem close_blk_600064 : chkN closeSweepPred 600064 11 = true := by decide +kernel
+set_option maxRecDepth 100000 in
+theorem close_blk_602112 : chkN closeSweepPred 602112 11 = true := by decide +kernel
+set_option maxRecDepth 100000 in
+theorem close_blk_604160 : chkN closeSweepPred 604160 11 = true := by decide +kernel
+set_option maxRecDepth 100000 in
+theorem close_blk_606208 : chkN closeSweepPred 606208 11 = true := by decide +kernel
+set_option maxRecDepth 100000 in
+theorem close_blk_608256 : chkN closeSweepPred 608256 11 = true := by decide +kernel
+set_option maxRecDepth 100000 in
+theorem close_blk_610304 : chkN closeSweepPred 610304 11 = true := by decide +kernel
+set_option maxRecDepth 100000 in
+theorem close_blk_612352 : chkN closeSweepPred 612352 11 = true := by decide +kernel
+set_option maxRecDepth 100000 in
+theorem close_blk_614400 : chkN closeSweepPred 614400 11 = true := by decide +kernel
+set_option maxRecDepth 100000 in
+theorem close_blk_616448 : chkN closeSweepPred 616448 11 = true := by decide +kernel
+set_option maxRecDepth 100000 in
+theorem close_blk_618496 : chkN closeSweepPred 618496 11 = true := by decide +kernel
+set_option maxRecDepth 100000 in
+theorem close_blk_620544 : chkN closeSweepPred 620544 11 = true := by decide +kernel
+theorem close_shard_18 : chkN closeSweepPred 589824 shardBits = true :=
+  (chkN_join _ 589824 14 (chkN_join _ 589824 13 (chkN_join _ 589824 12 (chkN_join _ 589824 11 close_blk_589824 close_blk_591872) (chkN_join _ 593920 11 close_blk_593920 close_blk_595968)) (chkN_join _ 598016 12 (chkN_join _ 598016 11 close_blk_598016 close_blk_600064) (chkN_join _ 602112 11 close_blk_602112 close_blk_604160))) (chkN_join _ 606208 13 (chkN_join _ 606208 12 (chkN_join _ 606208 11 close_blk_606208 close_blk_608256) (chkN_join _ 610304 11 close_blk_610304 close_blk_612352)) (chkN_join _ 614400 12 (chkN_join _ 614400 11 close_blk_614400 close_blk_616448) (chkN_join _ 618496 11 close_blk_618496 close_blk_620544))))
 end Demeter.TickClose
